@@ -288,6 +288,8 @@ def commit(bk, st):
                 r['fires'] = r.get('fires', 0) + 1
                 r['state'] = 'ok' if e['ok'] else 'fail'
                 r['fired_step'] = st.idx
+                if not e['ok'] and e['err'] == 'MQTTStateError':
+                    r['refused'] = True
                 if r['kind'] == 'connect' and e['ok']:
                     q = bk.proto(r['p'])
                     q['connected'] = True; q['connack_at'] = st.now; q['session'] = e['val']
@@ -451,6 +453,20 @@ class C04(Monitor):
                         self.flag('ondisc-twice', 'onDisconnection called twice for one loss', st)
                     if pr.get('loss_reason') != e['err']:
                         self.flag('ondisc-reason', 'onDisconnection reason %s, loss reason %s' % (e['err'], pr.get('loss_reason')), st)
+        tm = getattr(st, 'timer', None)
+        if any(e['k'] == 'esc' for e in st.ev):
+            if (op[0] == 'fire' and tm and tm['kind'] in ('connack', 'ondisc')) or \
+               (op[0] == 'recv' and any(pk and pk['type'] == 'CONNACK' for raw, pk in st.completed)) or op[0] == 'lost':
+                self.flag('handshake-escape', 'exception escaped while handling %s: %s' % (st.opline[:30], [e['err'] for e in st.ev if e['k'] == 'esc']), st)
+        # a CONNACK timer may only be pending for a connect Deferred that can still fire
+        for p in range(len(bk.protos)):
+            n_d = sum(1 for r in bk.dfd.values() if r['kind'] == 'connect' and r['state'] == 'pending' and r['p'] == p)
+            n_t = sum(1 for t in st.timers.values() if t['kind'] == 'connack' and t['owner'] == p)
+            if n_t > n_d:
+                key = ('stale', p, tuple(sorted(tid for tid, t in st.timers.items() if t['kind'] == 'connack' and t['owner'] == p)))
+                if key not in getattr(self, '_stale', set()):
+                    self._stale = getattr(self, '_stale', set()) | {key}
+                    self.flag('stale-connack-timer', 'CONNACK timeout of protocol %d still armed although its connect Deferred has fired: it would fire a second time' % p, st)
         # liveness as safety: a pending connect Deferred always has its CONNACK timer pending
         for p in set(r['p'] for r in bk.dfd.values() if r['kind'] == 'connect' and r['state'] == 'pending'):
             n_d = sum(1 for r in bk.dfd.values() if r['kind'] == 'connect' and r['state'] == 'pending' and r['p'] == p)
@@ -1024,6 +1040,11 @@ class C13b(Monitor):
                         self.once(('double', key), 'two-timers', 'two retry timers pending for %s id %s' % (t['kind'], t['mid']), st)
             elif t['kind'] in ('pingloop', 'pingalarm') and q['lost']:
                 self.once(('ping', tid), 'keepalive-after-lost', '%s timer t%d pending after connection %d was reported lost' % (t['kind'], tid, t['owner']), st)
+        for p in range(len(bk.protos)):
+            n_d = sum(1 for r in bk.dfd.values() if r['kind'] == 'connect' and r['state'] == 'pending' and r['p'] == p)
+            ct = [tid for tid, t in timers.items() if t['kind'] == 'connack' and t['owner'] == p]
+            if len(ct) > n_d:
+                self.once(('connack', p, tuple(ct)), 'stale-connack-timer', 'CONNACK timer(s) %s of connection %d pending although the connect request is settled' % (ct, p), st)
         # connected, keepalive off, nothing outstanding: only undelivered onDisconnection notifications may be pending
         for p, q in enumerate(bk.protos):
             if q['lost'] or p >= len(st.states) or st.states[p] != 'C' or q['keepalive'] != 0:
@@ -1159,11 +1180,18 @@ class C16(Monitor):
         pr = bk.proto(st.p)
         if pr is None:
             return
-        wellformed = [pk for raw, pk in st.completed if pk is not None]
+        wellformed = [pk for raw, pk in st.completed if pk is not None and not (pk['type'] == 'PUBLISH' and (pk['qos'] == 3 or (pk['qos'] == 0 and pk['dup'])))]
+        store = self.__dict__.setdefault('store', {}).setdefault(pr['addr'], {})
+        released = []
+        for pk in wellformed:
+            if pk['type'] == 'PUBLISH' and pk['qos'] == 2:
+                store[pk['id']] = (pk['topic'], pk['payload'], pk['retain'])
+            if pk['type'] == 'PUBREL' and pk['id'] in store:
+                released.append(store.pop(pk['id']))
         for e in st.ev:
             if e['k'] == 'pub':
-                ok = any(pk['type'] == 'PUBLISH' and pk['topic'] == e['topic'] and pk['payload'] == e['payload'] for pk in wellformed) or \
-                    any(pk['type'] == 'PUBREL' for pk in wellformed)
+                ok = any(pk['type'] == 'PUBLISH' and pk['qos'] == e['qos'] and pk['topic'] == e['topic'] and pk['payload'] == e['payload'] for pk in wellformed) or \
+                    (e['qos'] == 2 and (e['topic'], e['payload'], e['retain']) in released)
                 if not ok:
                     self.flag('unjustified-delivery', 'onPublish(%r, %d bytes) although no well-formed PUBLISH/PUBREL carrying it was received in this step' % (e['topic'][:20], len(e['payload'])), st)
             if e['k'] == 'fired' and e['ok']:
@@ -1172,7 +1200,7 @@ class C16(Monitor):
                 if not any(pk['type'] in want for pk in wellformed):
                     self.flag('unjustified-success', '%s Deferred succeeded in a step that received no well-formed %s' % (r['kind'] if r else '?', '/'.join(want)), st)
         # reaction to malformed input: at most abort
-        if st.completed and all(pk is None for raw, pk in st.completed):
+        if st.completed and all(pk is None or (pk['type'] == 'PUBLISH' and pk['qos'] == 3) for raw, pk in st.completed):
             bad = [e for e in st.ev if e['k'] not in ('abort',)]
             if bad:
                 self.flag('malformed-effect', 'malformed packet(s) caused %s' % [e['k'] for e in bad], st)
@@ -1226,7 +1254,10 @@ class C18(Monitor):
             if n_before == 0 and typ != 'CONNECT':
                 self.flag('not-led-by-connect', 'first packet on transport %d is %s' % (e['p'], typ), st)
             if typ == 'CONNECT' and n_before > 0:
-                self.flag('second-connect', 'a second CONNECT on transport %d' % e['p'], st)
+                # situation: was the previous connect of this protocol answered by a refusing CONNACK (idle again by design)?
+                prev = [r for r in bk.dfd.values() if r['kind'] == 'connect' and r['p'] == e['p'] and r['step'] < st.idx]
+                refused = bool(prev) and prev[-1]['state'] == 'fail' and prev[-1].get('refused')
+                self.flag('second-connect-after-refusal' if refused else 'second-connect', 'a second CONNECT on transport %d' % e['p'], st)
             if typ == 'CONNECT' and op[0] != 'connect':
                 self.flag('connect-unprompted', 'CONNECT written outside connect()', st)
             if e.get('disc_before'):
